@@ -301,7 +301,7 @@ pub fn total_corpus(rng: &mut Rng, count: usize) -> Vec<String> {
                 else {
                     // long words of mixed 1..4-byte characters, as unknown word or as a bad argument
                     const CH: &[char] = &['a', 'é', '日', '𝄞', 'ß', 'x', '-', '本'];
-                    let n = 1 + rng.below(70);
+                    let n = if rng.chance(1, 4) { 1 + rng.below(300) } else { 1 + rng.below(70) };
                     let w: String = (0..n).map(|_| CH[rng.below(CH.len())]).collect();
                     let pre = ["", "-", "-uid ", "-size ", "-type ", "-perm ", "-name x -o -", "-threads ", "-printf %", "-amin +"][rng.below(10)];
                     v.push(format!("{}{}{}", pre, ["", "a", "ab", "abc"][rng.below(4)], w));
@@ -354,6 +354,28 @@ pub fn record_total(opts: &Opts) -> i32 {
         };
         let _ = class;
         emit(&mut out, &json!({"i": cps(&input), "p": p, "c": c, "r": r, "m": m}));
+    }
+    0
+}
+
+/// record-tree: random trees through every public constructor (exotic shapes, hostile and dictionary
+/// strings); logs what the tree helpers answer (C19); TLC judges with Ast.tla
+pub fn record_tree(opts: &Opts) -> i32 {
+    let seed = opts.num("seed", 1);
+    let count = opts.num("count", 1000);
+    let size = opts.num("size", 12) as usize;
+    let mut rng = Rng(seed ^ 0x5eed_0005);
+    let p = TreeProfile { unsupported: true, exotic: true, hostile_strings: true, no_direct: false, kind: String::new() };
+    let out = std::io::stdout();
+    let mut out = out.lock();
+    for k in 0..count {
+        let sz = 1 + rng.below(size);
+        let t = if k % 3 == 0 { rand_tree(&mut rng, sz, &TreeProfile { kind: "actions".into(), ..TreeProfile { unsupported: false, exotic: false, hostile_strings: false, no_direct: false, kind: String::new() } }) } else { rand_tree(&mut rng, sz, &p) };
+        let tj = expr_to_json(&t);
+        match guarded(&tj, || (t.action(), t.complex_frames())) {
+            Ok((a, f)) => emit(&mut out, &json!({"t": tj, "st": "ok", "action": a, "framed": f})),
+            Err(m) => emit(&mut out, &json!({"t": tj, "st": "panic", "msg": cps(&m), "action": false, "framed": false})),
+        }
     }
     0
 }
